@@ -176,6 +176,11 @@ class MiniEval:
             env['%s.%s' % (t.value.id, t.attr)] = v          # attribute store on a local object: kept under 'obj.attr'
             if isinstance(env.get(t.value.id), Obj):
                 setattr(env[t.value.id], t.attr, v)
+        elif isinstance(t, ast.Attribute):
+            base = self.expr(t.value, env)
+            if not isinstance(base, Obj):
+                raise Undetermined('assignment target %s' % ast.unparse(t))
+            setattr(base, t.attr, v)
         else:
             raise Undetermined('assignment target %s' % ast.unparse(t))
 
@@ -390,6 +395,9 @@ class MiniEval:
             env2 = dict(lam.env)
             env2.update(zip(params, args))
             return self.expr(lam.node.body, env2)
+        if isinstance(f, ast.Name) and f.id not in env and (f.id.endswith('Result') or f.id == 'ResolutionStartEnd') \
+                and self.idx.classes_by_name.get(f.id):
+            return Obj()          # construction of a result record (DateTimeResolutionResult(), DateTimeParseResult(x) ...)
         if isinstance(f, ast.Name):
             if f.id in ('int', 'len', 'str', 'bool', 'abs', 'float', 'tuple', 'list', 'min', 'max', 'round') and not kwargs:
                 try:
@@ -732,7 +740,8 @@ def date_result_eval(idx, owner, fn, consts, unit, n, ref, fut):
             if is_value or any(isinstance(x, (ast.Return,)) for x in ast.walk(st)) or _mentions(st, ('unit_str', 'num', 'is_future')):
                 raise AnalysisError('%s.%s cannot be interpreted: %s (%s)' % (owner.name, fn.name, e, ast.unparse(st)[:60]))
             continue          # result object construction, TIMEX formatting by mode: not part of the value
-    return getattr(rec, 'future_value', None), getattr(rec, 'past_value', None)
+    final = env.get('result') if isinstance(env.get('result'), Obj) else rec
+    return getattr(final, 'future_value', None), getattr(final, 'past_value', None)
 
 
 def _mentions(st, names):
@@ -1059,6 +1068,56 @@ def agolater_branches(fn, gdr_params, tconsts):
                 mod = tconsts.get(v.attr) if isinstance(v, ast.Attribute) else (v.value if isinstance(v, ast.Constant) else None)
         out.append((k, fut, mod, st.lineno))
     return out
+
+
+def agolater_eval(idx, owner, fn, tconsts, scenario):
+    """interpret get_ago_later_result with the word tests stubbed for one scenario ('ago' | 'later' | 'in' | 'none'):
+    ([is_future of every get_date_result call], mod stored on the duration)"""
+    calls = []
+    gdr_params = None
+    k, g = idx.find_method(owner, 'get_date_result')
+    if g is not None:
+        gdr_params = _param_names(g)
+
+    def res(node):
+        if isinstance(node, ast.Attribute) and isinstance(node.value, ast.Name):
+            if node.value.id == 'TimeTypeConstants' and node.attr in tconsts:
+                return tconsts[node.attr]
+            if node.value.id == 'utility_configuration':
+                return '<%s>' % node.attr
+        raise Undetermined('attribute %s' % ast.unparse(node)[:40])
+
+    def hook(call, args, env):
+        cn = _callee_name(call)
+        if cn in ('contains_ago_later_index', 'contains_term_index', 'get_ago_later_index', 'get_term_index'):
+            which = [a for a in args if isinstance(a, str) and a.startswith('<') and a.endswith('_regex>')]
+            kind = which[0][1:-1] if which else ''
+            hit = (scenario == 'ago' and kind == 'ago_regex') or (scenario == 'later' and kind == 'later_regex') \
+                or (scenario == 'in' and kind == 'in_connector_regex')
+            return True, (hit if cn.startswith('contains') else Obj(matched=hit, index=1 if hit else -1))
+        if cn == 'get_date_result':
+            b = _bind(call, gdr_params) if gdr_params else {}
+            pos = gdr_params.index('is_future') if gdr_params and 'is_future' in gdr_params else 3
+            v = None
+            if 'is_future' in b:
+                v = ev.expr(b['is_future'], env)
+            elif len(args) > pos:
+                v = args[pos]
+            calls.append(v)
+            return True, Obj()
+        return False, None
+    ev = MiniEval(idx, owner, res)
+    ev.call_hook = hook
+    dur = Obj(value=Obj(mod=None))
+    env = {'duration_parse_result': dur, 'num': 3, 'unit_map': {'<u>': 'D'}, 'src_unit': '<u>', 'after_str': '<after>', 'before_str': '<before>',
+           'reference': _dt.datetime(2016, 11, 7), 'utility_configuration': '<cfg>', 'mode': '<mode>'}
+    try:
+        ev.block(fn.body, env)
+    except _Return:
+        pass
+    except Undetermined as e:
+        raise AnalysisError('%s.%s cannot be interpreted: %s' % (owner.name, fn.name, e))
+    return calls, dur.value.mod
 
 
 def weekday_semantics(idx, du, enum_vals):
@@ -1746,7 +1805,7 @@ def run(chk):
                        'and one-word-period wiring, special-day lexicon through get_swift_day, sibling cross-check of get_swift*')
     chk.rule('C08.unit_delta', 'unit letter -> (delta field, multiplier) equals the reference table; deltas are num*swift', floor=9, control=True)
     chk.rule('C08.polarity', 'swift is +1 exactly when is_future', floor=2, control=True)
-    chk.rule('C08.agolater', 'ago -> is_future False + before; later/in -> True + after', floor=2, control=True)
+    chk.rule('C08.agolater', 'ago -> is_future False + before; later/in -> True + after (interpreted per scenario)', floor=3, control=True)
     chk.rule('C08.weekday', 'DateUtils.this/next/last give the weekday of the same ISO week / +7 / -7 days', floor=3, control=True)
     chk.rule('C08.implicit', 'parse_implicit_date wires next/last/this regexes and special days correctly', floor=8, control=True)
     chk.rule('C08.period', 'one-word periods shift by 7*swift days / swift months / swift years', floor=4, control=True)
@@ -1830,21 +1889,26 @@ def run(chk):
     cg, _ = date_result_eval(idx, al, ctl, consts, 'D', 1, refs_[3], True)
     chk.control('C08.polarity', cg != refs_[3] + _dt.timedelta(days=1))
 
-    # ---- C08.agolater
-    br = agolater_branches(galr, _param_names(gdr), tconsts)
-    kinds = [b[0] for b in br]
-    if sorted(kinds) != ['ago', 'later']:
-        raise AnalysisError('get_ago_later_result: expected one ago branch and one later/in branch, found %s' % kinds)
-    want = {'ago': (False, 'before'), 'later': (True, 'after')}
-    for k, fut, mod, ln in br:
-        chk.judge((fut, mod) == want[k], 'C08.agolater', upath, 'AgoLaterUtil.get_ago_later_result[%s]' % k,
-                  'is_future=%r mod=%r' % (fut, mod),
-                  '%s branch passes is_future=%r and sets mod=%r; expected %r / %r' % (k, fut, mod, want[k][0], want[k][1]), ln)
-    chk.judge(kinds[0] == 'ago' or True, 'C08.agolater', upath, 'AgoLaterUtil.get_ago_later_result#order', ' '.join(kinds), '', galr.lineno)
-    ctl = ast.parse("def g(a, b, after_str, utility_configuration):\n    contains_ago = m(after_str, utility_configuration.ago_regex)\n"
-                    "    if contains_ago:\n        result = AgoLaterUtil.get_date_result(u, n, r, True, mode)\n        d.value.mod = TimeTypeConstants.BEFORE_MOD\n").body[0]
-    cb = agolater_branches(ctl, _param_names(gdr), tconsts)
-    chk.control('C08.agolater', bool(cb) and (cb[0][1], cb[0][2]) != want['ago'])
+    # ---- C08.agolater : decided by interpretation with the word tests stubbed (ago / later / in / none)
+    want = {'ago': (False, 'before'), 'later': (True, 'after'), 'in': (True, 'after')}
+    for scen in ('ago', 'later', 'in', 'none'):
+        calls, mod = agolater_eval(idx, al, galr, tconsts, scen)
+        cons = 'AgoLaterUtil.get_ago_later_result[%s]' % scen
+        if scen == 'none':
+            chk.judge(not calls, 'C08.agolater', upath, cons, 'no date computed' if not calls else 'is_future=%r' % (calls[0],),
+                      'without an ago/later/in word a date is still computed (is_future=%r)' % (calls[0] if calls else None), galr.lineno)
+            continue
+        got = (calls[0] if len(calls) == 1 else calls, mod)
+        chk.judge(got == want[scen], 'C08.agolater', upath, cons, 'is_future=%r mod=%r' % got,
+                  "'%s' phrase: get_date_result is called with is_future=%r and the duration is marked %r; expected %r / %r"
+                  % (scen, got[0], got[1], want[scen][0], want[scen][1]), galr.lineno)
+    ctl = ast.parse("def g(duration_parse_result, num, unit_map, src_unit, after_str, before_str, reference, utility_configuration, mode):\n"
+                    "    unit_str = unit_map.get(src_unit)\n"
+                    "    contains_ago = MatchingUtil.contains_ago_later_index(after_str, utility_configuration.ago_regex, True)\n"
+                    "    if contains_ago:\n        result = AgoLaterUtil.get_date_result(unit_str, num, reference, True, mode)\n"
+                    "        duration_parse_result.value.mod = TimeTypeConstants.BEFORE_MOD\n        return result\n").body[0]
+    cc, cm = agolater_eval(idx, al, ctl, tconsts, 'ago')
+    chk.control('C08.agolater', cc == [True])
 
     # ---- C08.weekday
     enum = {k: v.value for k, v in idx.cls(DT + 'utilities.DayOfWeek').attrs.items() if isinstance(v, ast.Constant)}
